@@ -291,6 +291,24 @@ CHECKS = {
              '(1e-9 deg). Pixel routing / decoding / file layout are C01 / C08 / C02 / C03. ' + TB,
         technique='Lean 4 proof (integer arithmetic, list induction, reuse of C01/C02/C03 theorems) + correspondence through a run-time '
                   'wrapper of SICDWriter.write_chip + file-level differential oracle (numpy slicing, projection both ways)'),
+    'C06': dict(
+        text='Lean 4 theorem, unbounded in document size and depth: a class table that conforms to an XSD content model (same child names '
+             'and order, bounds compatible with the row kind, every attribute has a row) parses and re-serialises every valid tree into a '
+             'valid tree with the same elements, attributes and values in the same order (roundtrip_equiv, roundtrip_valid, and the '
+             'decidable closedB presentation c06_roundtrip_partial); conformance of every (class, complex type) pair of all 16 bundled '
+             'schema versions is decided by the kernel on tables regenerated from the XSDs and the element classes on every run (1011 '
+             'pairs; failing obligations are the table-level view of the listed findings); how attributes are namespaced is measured '
+             'on the implementation with a probe class; every version is exercised with lxml-validated generated documents and variants '
+             '(pairwise coverage of optional-element subsets in the thorough tier) through the real parse / serialise, and the model '
+             'validity verdicts are compared with lxml.',
+        design='DESIGN.md 6/C06',
+        note='proof, partial: XSD fragment = sequences of element particles, one level of non-repeating choice, attributes with use; classes '
+             'overriding to_node/from_node are opaque (216 pairs outside the fragment, listed per run), values are opaque strings; the '
+             'rest by the document oracle with lxml as the definition of validity. 72 open known findings in 9 groups (SICD 0.x output, '
+             'CRSD AddedParameters, SIDD ISM attributes / annotations / display / compression blocks, SIDD 1.0 structures, derived '
+             'RcvDemodType, descriptor domains); nine root causes repaired in sarpy. ' + TB,
+        technique='Lean 4 proof (structural induction over XML trees, list permutation) + XSD/class-table translator with per-pair kernel '
+                  'decision + lxml-validated document oracle'),
 }
 
 
